@@ -22,5 +22,5 @@ Extraction "model.ml"
   Quote.scan_word Quote.quote_single Quote.quote_double Quote.quote_backslash
   Spec.split_spec Spec.split_model Spec.posix_table Expand.expand Expand.word_size Expand.join_all Expand.ifs_value
   Expand.expand_top Expand.split_field Expand.fempty Expand.funquote
-  Grammar.parse_tokens Skel.sk_word
+  Grammar.parse_tokens Grammar.parse_subst Skel.sk_word
   AEval.eval_model AEval.eval_top_i AEval.eval_c AEval.c_defined AEval.eager_safe AEval.numeric_store AEval.runes_of AEval.parse_int0.
